@@ -125,6 +125,9 @@ static Reg r_xzi("tmxzi", [](const Args& A) {
   current_op() = "tmxzi " + A[0] + " " + A[1] + " " + A[2] + " " + hK(t) + " " + htrace(tr);
   emit(hx(u) + " " + hx(v));
   // the point returned is a root: its image under zeta is (taup, lam) to rounding, measured in the metric of the Newton step
+  // (extended domain, towards the south pole w0 = K + iK': sigma has a pole there and the image recedes beyond the range of binary64 --
+  //  |w - w0| ~ exp(-|psi|/e) -- nothing is claimed, cf. DESIGN P16 and the rule `extendp-huge-coordinates-not-compared`)
+  if (taup < 0 && std::hypot(u - t._eEu.K(), v - t._eEv.K()) < 1e-6) { stat("zetainv-image-beyond-range"); return; }
   Entry e = final_entry(t, u, v); double t1, l1, du, dv;
   t.zeta(u, e.j.snu, e.j.cnu, e.j.dnu, v, e.j.snv, e.j.cnv, e.j.dnv, t1, l1); t.dwdzeta(u, e.j.snu, e.j.cnu, e.j.dnu, v, e.j.snv, e.j.cnv, e.j.dnv, du, dv);
   double r1 = (t1 - taup) / std::hypot(1.0, taup), r2 = l1 - lam, st = std::hypot(r1 * du - r2 * dv, r1 * dv + r2 * du);
@@ -203,7 +206,8 @@ inline void generate(Rng& r, long i, double f) {
   { double lat = r.pick(std::vector<double>{r.range(0, 90), r.range(0, 90), r.range(0, 1) * std::pow(10.0, -r.irange(0, 10)), 89.9999, 0.0});
     double lon = r.pick(std::vector<double>{r.range(0, 90), r.range(0, 90), bp + r.range(-1, 1) * std::pow(10.0, -r.irange(0, 10)), 90.0, 0.0, r.range(bp, 90)});
     if (lon > 90) lon = 90; if (lon < 0) lon = 0;
-    bool south = r.irange(0, 3) == 0 && lon >= bp; double la = south ? -lat : lat;     // extended domain
+    // extended domain (towards its south pole the image recedes to infinity and nothing is claimed, cf. DESIGN P16: stay within 85 degrees)
+    bool south = r.irange(0, 3) == 0 && lon >= bp; double la = south ? -std::fmin(lat, 85.0) : lat;
     double taup = Math::taupf(Math::tand(la), e), lam = lon * Math::degree();
     run("tmxzi", {hx(f), hx(taup), hx(lam)}); stratum(south ? "exact-zetainv-extended" : "exact-zetainv"); }
   { double xi = r.pick(std::vector<double>{r.range(0, Eu), r.range(0, Eu), 0.0, Eu, r.range(0, 1) * std::pow(10.0, -r.irange(0, 10))});
